@@ -179,7 +179,6 @@ func VerifC29_Passwd() {
 	}
 }
 
-
 // VerifC29_AddCmd: addKey never touches the existing keys; success means the new password works.
 func VerifC29_AddCmd() {
 	s := verifC29Open(verifrt.Param("keys", 2))
